@@ -45,6 +45,9 @@ func (c *Ctx) add(o Ob) {
 		return
 	}
 	c.seen[o.Key+"|"+o.Verdict] = true
+	if os.Getenv("UQ_VERBOSE") != "" {
+		fmt.Printf("  [%s] %s at %s: %s\n", o.Verdict, o.Key, o.Pos, o.Detail)
+	}
 	c.Obs = append(c.Obs, o)
 }
 
